@@ -14,7 +14,8 @@ LEVEL = "model_checking"
 CODE = ["yowsup/config/transforms/dict_keyval.py:DictKeyValTransform.transform/reverse", "yowsup/config/transforms/dict_json.py", "yowsup/config/v1/serialize.py + transforms/*.py",
         "yowsup/config/manager.py:ConfigManager.load/_load_path/guess_type/save/config_to_str", "yowsup/common/tools.py:StorageTools.getStorageForProfile/writeProfileData/constructPath",
         "yowsup/config/v1/config.py:Config"]
-BOUNDS = {"quick": "[+ value family 'long'] " 
+BOUNDS = {"quick": "[+ value family 'edge-bytes'] " 
+                   "[+ value family 'long'] " 
                    "[+ file names {myconfig, tokyo, work-json, acct.2020, JSON} for extension-less paths] " 
                    "[+ profile objects (name = phone number | 'work') x working directory {neutral, directory named like the profile, storage root}] " 
                    "key=value codec: 1-2 entries, values of n<=3 unconstrained Latin-1 characters (restriction of the property assumed), keys n<=2 identifier characters; pipeline: 2 formats x 3 load paths x "
